@@ -16,9 +16,9 @@ Statements only — the proofs are in `C18/Lemmas.lean`, `Lemmas2.lean`, `Seq.le
 Covered by theorem: get/set/clear/toggle, insertNonStraddling, extractNonStraddling, insert, extract (straddling
 included), setRange/clearRange (3-segment split), copyRange (byte fast path + chunk loop), compareRange
 (DefaultConfig specialisation), resize, operator==, allOne/allZero/allDefined/anyDefined, extract(start,size),
-insert(state,…), append, extractBigInt (≤ 64 bit path and word-aligned wide path), and arbitrary operation sequences.
+insert(state,…), append, extractBigInt / insertBigInt (≤ 64 bit path and word-aligned wide path, negative values as two's complement) and their round trip, and arbitrary operation sequences.
 Covered by correspondence only (driver compares model AND spec with the implementation, no theorem yet):
-compareRange<ExtendedConfig>, insertBigInt, literal parsing (`parseBitVector`: model in C18/Literal.lean follows the
+compareRange<ExtendedConfig>, literal parsing (`parseBitVector`: model in C18/Literal.lean follows the
 spirit grammar and the container calls; the driver also checks the digit-by-digit grammar specification `specDigits`) and
 formatting (`operator<<` binary / hex).
 -/
@@ -142,6 +142,18 @@ wide path (full words `import_bits`-ed, trailing partial chunk or-ed on top); `h
 theorem extractBigInt_refines (p : Plane) (n off size : Nat) (hin : off + size ≤ 64 * p.length) (hn : off + size ≤ n)
     (hal : size > 64 → off % 64 = 0) :
     extractBigInt p off size = specBigExtract (absPlane p n) off size := extractBigInt_spec p n off size hin hn hal
+
+/-- `insertBigInt(vec, offset, size, v)` writes `v mod 2^size` (two's complement of negative `v`, produced by the code as
+`bitwiseNegation(v, size) + 1` on boost's sign-magnitude `cpp_int` and exported as 64-bit words) into `[offset, offset+size)`
+and leaves every other bit alone. -/
+theorem insertBigInt_refines (p : Plane) (n off size : Nat) (v : Int) (hin : off + size ≤ 64 * p.length)
+    (hal : size > 64 → off % 64 = 0) :
+    absPlane (insertBigInt p off size v) n = specBigInsert (absPlane p n) off size v := insertBigInt_abs p n off size v hin hal
+
+/-- write-then-read round trip of big integers -/
+theorem bigInt_round_trip (p : Plane) (off size : Nat) (v : Int) (hin : off + size ≤ 64 * p.length)
+    (hal : size > 64 → off % 64 = 0) :
+    extractBigInt (insertBigInt p off size v) off size = (v % (2 ^ size : Int)).toNat := extract_insertBigInt p off size v hin hal
 
 theorem resize_refines (p : Plane) (n m : Nat) (hc : Clean p n) :
     absPlane (resizePlane p m) m = specResize (absPlane p n) m := resize_abs p n m hc
